@@ -47,6 +47,12 @@ f_xrec = z3.Function("ed_xrecover", _I, _I)
 f_aed = z3.Function("ed_ae_from", _I, _I, EPt)      # try-and-increment: first good point at or after y+plus
 
 
+def _voc(name, *args):
+    """instance of a vocabulary schema of pyvc/theory.py (printed to Lean and proved there: pyvc/leanbridge.py)"""
+    from . import theory
+    return theory.instantiate(name, list(args))
+
+
 def _pt4(t):
     if not (isinstance(t, tuple) and len(t) == 4):
         raise Unsupported("expected a 4-tuple of coordinates, got %r" % (t,))
@@ -55,8 +61,8 @@ def _pt4(t):
 
 def _regpt(P):
     if sym.FACTS.reg("ept", P):
-        sym.FACTS.add(z3.And(f_x(c_O) == 0, f_y(c_O) == 1), "ed-O-is-(0,1)")
-        sym.FACTS.add(z3.And(f_x(P) >= 0, f_x(P) < Q, f_y(P) >= 0, f_y(P) < Q), "ed-coords-range")
+        sym.FACTS.add(_voc("voc_O_coords"), "T1:voc_O_coords")
+        sym.FACTS.add(_voc("voc_coords_range", P), "T1:voc_coords_range")
     return P
 
 
@@ -65,7 +71,7 @@ def ed_valid(ip, t):
     v = f_valid(X, Y, Z, T)
     if sym.FACTS.reg("edvalid", X, Y, Z, T):
         # valid => reduced coordinates and the T-free part
-        sym.FACTS.add(z3.Implies(v, z3.And(X >= 0, X < Q, Y >= 0, Y < Q, Z > 0, Z < Q, T >= 0, T < Q, f_valid3(X, Y, Z))), "ed-valid-reduced")
+        sym.FACTS.add(_voc("voc_valid_reduced", X, Y, Z, T), "T1:voc_valid_reduced")
     return mkbool(v)
 
 
@@ -96,7 +102,7 @@ def ed_O(ip):
 
 
 def ed_B(ip):
-    sym.FACTS.add(c_B == f_aff(IV(B_X), IV(B_Y)), "ed-B-is-the-RFC8032-base-point")
+    sym.FACTS.add(_voc("voc_B_def"), "T1:voc_B_def")
     return SPoint(c_B)
 
 
@@ -105,8 +111,8 @@ def ed_point_facts(ip, P):
     is determined by its coordinates"""
     t = P.t
     _regpt(t)
-    sym.FACTS.add(f_oncurve(f_x(t), f_y(t)), "ed-point-on-curve (definition of EPt)")
-    sym.FACTS.add(f_aff(f_x(t), f_y(t)) == t, "ed-point-ext (definition of EPt)")
+    sym.FACTS.add(_voc("voc_point_on_curve", t), "T1:voc_point_on_curve")
+    sym.FACTS.add(_voc("voc_point_aff", t), "T1:voc_point_aff")
     return True
 
 
@@ -117,12 +123,12 @@ def ed_disable_auto_injectivity(ip):
 
 def ed_coords_determine_point(ip, P, R):
     """points are pairs of affine coordinates: equal coordinates, equal points (definitional)"""
-    sym.FACTS.add(z3.Implies(z3.And(f_x(P.t) == f_x(R.t), f_y(P.t) == f_y(R.t)), P.t == R.t), "ed-point-ext")
+    sym.FACTS.add(_voc("voc_point_ext", P.t, R.t), "T1:voc_point_ext")
     return True
 
 
 def ed_aff(ip, x, y):
-    sym.FACTS.add(f_aff(IV(0), IV(1)) == c_O, "ed-O-is-(0,1)")
+    sym.FACTS.add(_voc("voc_aff_O"), "T1:voc_aff_O")
     return SPoint(_regpt(f_aff(I(x), I(y))))
 
 
@@ -184,7 +190,7 @@ def ed_enc(ip, P):
 
 def ed_xrecover(ip, y):
     t = f_xrec(I(y))
-    sym.FACTS.add(z3.And(t >= 0, t < Q, t % 2 == 0), "ed-xrecover-range (proved by the contract of xrecover)")
+    sym.FACTS.add(z3.And(t >= 0, t < Q, t % 2 == 0), "ed-xrecover-range (consequence of the definition ed_xrecover := ed_xrecover_def, proved by lemma.ed_xrecover_def_range)")
     return mkint(t)
 
 
